@@ -195,6 +195,32 @@ def call_trees():
             out.append((f'call:F2:{an}:{en}', call('F2', a(), e())))
             out.append((f'call:F3:{en}:{an}', call('F3', e(), a())))
             out.append((f'call:F2-red:{an}:{en}', N('REDUCE', None, [call('F2', a(), e())])))
+    # the same templated function instantiated twice, differently, inside ONE expression
+    L = lambda n: N('ID_LOCAL', n)
+    for an, a in sets.items():
+        for bn, b in sets.items():
+            if an == bn:
+                continue
+            out.append((f'call2:tuple:{an}:{bn}', N('NT_TUPLE', None, [call('F1', a(), a()), call('F1', b(), b())])))
+            out.append((f'call2:cards:{an}:{bn}', N('EQUAL', None, [N('CARD', None, [call('F1', a(), a())]), N('CARD', None, [call('F1', b(), b())])])))
+            out.append((f'call2:decart:{an}:{bn}', N('DECART', None, [call('F2', a(), N('DEBOOL', None, [a()])), call('F1', b(), b())])))
+            out.append((f'call2:nested:{an}:{bn}', call('F3', call('F1', a(), a()), N('NT_ENUMERATION', None, [call('F1', a(), a())]))))
+    out.append(('call2:quant:S1:X1', N('AND', None, [
+        N('FORALL', None, [L('x'), call('F1', G('S1'), G('S1')), N('IN', None, [N('SMALLPR', [1], [L('x')]), G('X1')])]),
+        N('FORALL', None, [L('y'), call('F1', G('X1'), G('X1')), N('IN', None, [L('y'), G('X1')])])])))
+    out.append(('call2:quant:X1:S1', N('AND', None, [
+        N('FORALL', None, [L('y'), call('F1', G('X1'), G('X1')), N('IN', None, [L('y'), G('X1')])]),
+        N('FORALL', None, [L('x'), call('F1', G('S1'), G('S1')), N('IN', None, [N('SMALLPR', [1], [L('x')]), G('X1')])])])))
+    # a filter whose argument is untyped/empty still has to check its parameters
+    bad_params = {'arity': lambda: call('F1', G('X1')), 'union': lambda: N('UNION', None, [G('X1'), G('S1')]), 'undeclared': lambda: L('w'),
+                  'good': lambda: G('X1'), 'call': lambda: call('F1', G('X1'), G('X1'))}
+    empties = {'empty': E, 'call-empty': lambda: call('F1', E(), E()), 'pr-call-empty': lambda: N('BIGPR', [1, 3], [call('F1', E(), E())])}
+    for pn, bp in bad_params.items():
+        for en, e in empties.items():
+            out.append((f'filter-untyped:{pn}:{en}:1', N('FILTER', [1], [bp(), e()])))
+            out.append((f'filter-untyped:{pn}:{en}:2a', N('FILTER', [1, 2], [bp(), G('X1'), e()])))
+            out.append((f'filter-untyped:{pn}:{en}:2b', N('FILTER', [1, 2], [G('X1'), bp(), e()])))
+            out.append((f'filter-untyped:{pn}:{en}:c', N('FILTER', [1, 2], [bp(), e()])))
     ints = {'Z': lambda: N('LIT_INTSET'), 'enum': lambda: N('NT_ENUMERATION', None, [N('LIT_INTEGER', 1), N('LIT_INTEGER', 2)]), 'empty': E,
             'boolZ': lambda: N('BOOLEAN', None, [N('LIT_INTSET')])}
     for f in ('F4', 'F5', 'F6', 'F7'):
